@@ -147,4 +147,23 @@ PROPS["C08"] = {
     "level_note": "allowed_email_domains matching is modelled (is_endpoint_allowed) and compared, its declarative reading is shared with C06.",
 }
 
+PROPS["C07"] = {
+    "drivers": [MAIN],
+    "rule": "(1) middleware.NewRequestHeaderInjector / NewResponseHeaderInjector on 8 structured configurations (mixed-case names, preserve "
+            "on/off, two entries for one name, prefix, basic-auth encoding, secret values, several values per header, unknown and time "
+            "claims) x 6 sessions (nil, every field empty or multi-valued, commas inside values) x 5 client header sets spoofing every "
+            "configured name in lower/upper/mixed case, repeated lines and comma-joined values: the header multimap seen by the next "
+            "handler is compared with the model; (2) the real proxy with legacy header flag combinations (every 9th of the 512 in quick, "
+            "all in thorough) for a cookie session, a bypassed request and an htpasswd basic-auth request with spoofed headers; "
+            "non-trivial = all",
+    "assumptions": ["net/http Header Add/Del/Set and textproto.CanonicalMIMEHeaderKey are modelled (association list with canonical keys)",
+                    "time.Time.String() rendering of created_at / expires_on is passed through as an opaque string"],
+    "trusted_base": ["spoof markers and reconstruction of the expected user / access-token header in the driver"],
+    "level_text": "c07_request (for every client header map, optional session and configuration: value under a configured name = client "
+                  "values only if no entry strips it, then the session/secret-derived values in configuration order, comma-joined), "
+                  "c07_client_values_ignored (non-interference for stripped names), c07_bypass, c07_empty_claim, c07_response are proved on "
+                  "the Gallina model of stripHeaders / Inject / flattenHeaders / GetClaim; compared with the Go injectors on every run.",
+    "level_note": "legacy flag conversion (LegacyHeaders.convert) is exercised on the real proxy with oracles, not modelled in Coq.",
+}
+
 NOT_APPLICABLE = {}
